@@ -348,7 +348,30 @@ def run(pid, tier, repo, replay=None):
             res.counts['type_dispatch_instantiation'] = 1
     if tier == 'thorough':
         thorough_extras(pid, res, repo)
+    suppress_on_unknown(res)
     return res
+
+
+def suppress_on_unknown(res):
+    """a public method whose paths contain a construct the engine has no semantics for cannot be judged either way: what the rules
+    say about it is withheld (it stays in the evidence as analysis-incomplete), the verdict for the property is exit 2, not exit 1"""
+    import re
+    unk = set()
+    for line in res.incomplete:
+        if 'G-UNKNOWN' not in line:
+            continue
+        for cls, meth in re.findall(r'reached from (\w+)::([^;]+?)(?=;|$)', line):
+            unk.add((cls, meth.strip()))
+    if not unk:
+        return
+    keep = []
+    for v in res.violations:
+        fn = (v.function or '').split(' [')[0].strip()
+        if (v.container, fn) in unk:
+            res.incomplete.append('withheld (method uses an unmodelled construct): %s' % v.line()[:200])
+        else:
+            keep.append(v)
+    res.violations[:] = keep
 
 
 def thorough_extras(pid, res, repo):
